@@ -209,6 +209,72 @@ def trace_stats(traces):
     return st, samples
 
 
+# ------------------------------------------------------------------ white-box traces (SearchWB.tla)
+
+def whitebox(chk, wvbin, wd, pid, sessions, name="wb"):
+    """Runs the sessions with white-box logging, splits every search's hook events into one stream per
+    worker and iteration and validates each against SearchWB.tla. Property diagnostics for `pid` become
+    violations; model-conformance diagnostics (DRIFT) only weaken the model-checking claim."""
+    for s in sessions:
+        for st in s["steps"]:
+            st["wb"] = True
+    traces = run_scripts(wvbin, wd, name, sessions, nproc=min(NPROC, max(1, len(sessions))))
+    streams = []
+    k = 0
+    for t in traces:
+        head = None
+        per = {}
+        for line in open(t):
+            e = json.loads(line)
+            ev = e.get("ev")
+            if ev == "SearchStart" and "root" in e:
+                head = {"ev": "WbStart", "root": e["root"], "history_keys": e["history_keys"], "mate": e.get("mate", [0]), "fen": e["fen"]}
+                per = {}
+            elif ev == "SearchEnd":
+                for w, evs in sorted(per.items()):
+                    k += 1
+                    sp = os.path.join(wd, "%s_stream_%04d.ndjson" % (name, k))
+                    with open(sp, "w") as f:
+                        f.write(json.dumps(head) + "\n")
+                        for x in evs:
+                            f.write(json.dumps(x) + "\n")
+                    streams.append(sp)
+                per = {}
+            elif "w" in e and e["w"] >= 0 and head is not None:
+                if ev in ("Find", "Insert"):
+                    e = dict(e, key=e["key"])
+                per.setdefault(e["w"], []).append(e)
+    # pack streams into shard files (each stream starts with its own WbStart header)
+    shards = []
+    nsh = min(NPROC, max(1, len(streams)))
+    for i in range(nsh):
+        sp = os.path.join(wd, "%s_shard_%02d.ndjson" % (name, i))
+        with open(sp, "w") as f:
+            for st in streams[i::nsh]:
+                f.write(open(st).read())
+        shards.append(sp)
+    for st in streams:
+        os.remove(st)
+    res = tlc_many([dict(module="SearchWB", trace=sp, xmx="4g", timeout=3000) for sp in shards])
+    chk.add_tlc(res)
+    drift = {}
+    nev = 0
+    for r in res:
+        nev += r["accepted"] or 0
+        for d in r["diags"]:
+            w = d.get("what", {})
+            if d.get("prop") == "DRIFT":
+                drift[w.get("kind")] = drift.get(w.get("kind"), 0) + 1
+            elif d.get("prop") == pid:
+                chk.violation("|".join([pid, "whitebox", str(w.get("kind")), str(w.get("pos", ""))]), "white-box: %s: %s" % (w.get("kind"), json.dumps({a: b for a, b in w.items() if a != "kind"}, sort_keys=True)),
+                              {"module": "SearchWB", "trace": r["trace"], "diag": d})
+    chk.coverage["whitebox"] = {"worker_streams": len(streams), "events_validated": nev, "model_drift": drift}
+    chk.coverage["traces_validated_against_impl"] = chk.coverage.get("traces_validated_against_impl", 0) + len(streams)
+    if drift:
+        print("MODEL-DRIFT property=%s the algorithmic model (Search.tla/SearchWB.tla) no longer describes the code: %s" % (pid, json.dumps(drift)))
+    return traces
+
+
 # ------------------------------------------------------------------ model checking (Search.tla)
 
 def search_models(chk, pid, quick):
@@ -396,6 +462,10 @@ def check_c04(pid, tier, seed):
     for i in range(10 if quick else 60):
         pub.append({"id": 100000 + i, "fen": rnd.choice(small + fens[:6]), "depth": rnd.choice([None, None, 3]), "seed": i, "stop_after_ms": rnd.choice([0, 0, 1, 5, 30, 120]),
                     "stops": rnd.choice([1, 2]), "drop_receiver": i % 2 == 1, "reuse": True, "tag": "public-api"})
+    for i, f in enumerate(["5K1k/6pP/6P1/8/6p1/6P1/8/8 w - - 0 1", "8/8/4k3/8/8/4K3/8/8 w - - 0 1", "7k/6pP/6P1/8/8/8/8/7K w - - 0 1"]):
+        # tiny trees run through hundreds of iterations per second: many status events queue up while nobody reads them
+        pub.append({"id": 110000 + i, "fen": f, "depth": None, "seed": i, "stop_after_ms": 2600 + 300 * i, "stops": 1, "drop_receiver": False, "reuse": False, "tag": "public-api-many-events"})
+        pub.append({"id": 110100 + i, "fen": f, "depth": 24, "seed": i, "stops": 0, "drop_receiver": False, "reuse": True, "tag": "public-api-deep-limit"})
     pub_sessions = [pub[i::2] for i in range(2)]
     ptraces = []
     for i, ps in enumerate(pub_sessions):
@@ -408,7 +478,7 @@ def check_c04(pid, tier, seed):
     def runpub(sp):
         script, tr = sp
         try:
-            subprocess.run([wvbin, "search-public", "--script", script, "--out", tr], capture_output=True, text=True, timeout=40 + 25 * 30)
+            subprocess.run([wvbin, "search-public", "--script", script, "--out", tr], capture_output=True, text=True, timeout=240)
         except subprocess.TimeoutExpired:
             with open(tr, "a") as f:
                 f.write(json.dumps({"ev": "SearchEnd", "status": "timeout", "ms": 10 ** 8, "ms_after_cancel": -1, "nodes": 0, "nodes_after_cancel": 0, "history_len": 0, "entries": 0,
@@ -430,13 +500,14 @@ def check_c04(pid, tier, seed):
 def mate_sessions(tb, rnd, quick, sid0=0):
     sessions = []
     sid = sid0
-    nper = 70 if quick else 1500
+    nper = 260 if quick else 4000
     for piece in ("R", "Q"):
         for code in (3, 5, 7):
             n = code - 2
             for i in sample_slots(tb[piece], lambda c: c == code, nper, rnd):
                 for d in (n, n + 1, n + 2):
-                    if quick and rnd.random() < 0.45:
+                    # the exact depth d = n is where a stale table entry or an off-by-one depth bites first
+                    if d > n and rnd.random() < (0.75 if quick else 0.5):
                         continue
                     sid += 1
                     w = rnd.choice([1, 1, 2, 3, 8, 32])
@@ -445,7 +516,7 @@ def mate_sessions(tb, rnd, quick, sid0=0):
                         st["sched"] = [rnd.randrange(1 << 30), rnd.choice([0.0, 0.5, 0.9])]
                     sessions.append({"id": sid, "steps": [st]})
         # soundness: drawn and longer-won positions, and the defender to move
-        for i in sample_slots(tb[piece], lambda c: c == 1 or c >= 11, nper, rnd) + sample_slots(tb[piece], lambda c: c >= 1, nper, rnd, stm=1):
+        for i in sample_slots(tb[piece], lambda c: c == 1 or c >= 11, nper // 3, rnd) + sample_slots(tb[piece], lambda c: c >= 1, nper // 3, rnd, stm=1):
             sid += 1
             sessions.append({"id": sid, "steps": [{"fen": tb_fen(piece, i, mirror=sid % 3 == 0), "depth": rnd.choice([2, 3, 4, 5]), "seed": rnd.randrange(1 << 30), "workers": rnd.choice([1, 2, 4]), "tag": "sound"}]})
     return sessions, sid
